@@ -204,7 +204,7 @@ func ruleNoNodeMemo(c *Ctx, rule string) {
 	nodeFields := map[string]bool{}
 	for i := 0; i < st.NumFields(); i++ {
 		if holdsNode(st.Field(i).Type(), 0) {
-			nodeFields["memfs.Filespace."+st.Field(i).Name()] = true
+			nodeFields["memfs.Filespace."+refFieldName("memfs.Filespace", st.Field(i).Name())] = true
 		}
 	}
 	if len(nodeFields) == 0 {
